@@ -56,6 +56,7 @@ fn main() {
             "u8" => engines::u8(line),
             "u8x" => engines::u8x(line),
             "utils" => engines::utils(line),
+            "utilsx" => engines::utilsx(line),
             "ed" => engines::ed(line),
             "tok" => engines::tok(line),
             "cmd" => engines::cmd(line),
